@@ -205,29 +205,51 @@ type argTuple struct {
 	push    func(*quasigo.ValueStack)
 }
 
+// argsFor: the t-th argument tuple of f - enumerated by the generator (data programs) or drawn at random.
+func argsFor(r *rand.Rand, f *gfunc, t int) argTuple {
+	if f.tuples != nil {
+		return mkArgVals(f.tuples[t%len(f.tuples)])
+	}
+	return mkArgs(r, f.params)
+}
+
 func mkArgs(r *rand.Rand, params []gvar) argTuple {
-	var goArgs, coqArgs []string
-	var pushes []func(*quasigo.ValueStack)
+	var vals []argval
 	for _, p := range params {
 		switch p.ty {
 		case gInt:
-			var v int64
 			if r.Intn(3) == 0 {
-				v = intPool[r.Intn(len(intPool))]
+				vals = append(vals, aI(intPool[r.Intn(len(intPool))]))
 			} else {
-				v = int64(r.Intn(14) - 3)
+				vals = append(vals, aI(int64(r.Intn(14)-3)))
 			}
+		case gStr:
+			vals = append(vals, aS(strPool[r.Intn(len(strPool))]))
+		case gBool:
+			vals = append(vals, aB(r.Intn(2) == 0))
+		}
+	}
+	return mkArgVals(vals)
+}
+
+func mkArgVals(vals []argval) argTuple {
+	var goArgs, coqArgs []string
+	var pushes []func(*quasigo.ValueStack)
+	for _, p := range vals {
+		switch p.ty {
+		case gInt:
+			v := p.i
 			goArgs = append(goArgs, strconv.FormatInt(v, 10))
 			coqArgs = append(coqArgs, "(VInt "+coqZ(v)+")")
 			vv := int(v)
 			pushes = append(pushes, func(s *quasigo.ValueStack) { s.PushInt(vv) })
 		case gStr:
-			v := strPool[r.Intn(len(strPool))]
+			v := p.s
 			goArgs = append(goArgs, strconv.Quote(v))
 			coqArgs = append(coqArgs, "(VStr "+coqBytes(v)+")")
 			pushes = append(pushes, func(s *quasigo.ValueStack) { s.Push(v) })
 		case gBool:
-			v := r.Intn(2) == 0
+			v := p.b
 			goArgs = append(goArgs, strconv.FormatBool(v))
 			coqArgs = append(coqArgs, coqValue(v))
 			pushes = append(pushes, func(s *quasigo.ValueStack) { s.Push(v) })
@@ -254,7 +276,11 @@ func header(src string) string {
 	return h
 }
 
-var qfRe = regexp.MustCompile(`\bqf(\d+)\b`)
+// qfRe: the package-level names of a generated unit (functions qf<n>, constants qk<n>); they are prefixed per program
+// in the batch built by the Go toolchain.
+var qfRe = regexp.MustCompile(`\bq([fk])(\d+)\b`)
+
+func renameSyms(body, prefix string) string { return qfRe.ReplaceAllString(body, prefix+"q${1}${2}") }
 
 type checked struct {
 	fset *token.FileSet
@@ -319,6 +345,7 @@ func main() {
 	noOracle := flag.Bool("nooracle", false, "skip the go toolchain batch")
 	corpusDir := flag.String("corpus", "", "directory of hand-written programs (*.go, functions qf0..qfN) run before the generated ones")
 	nhist := flag.Int("hist", 0, "number of histories (several units compiled into one Env, see hist.go)")
+	ndata := flag.Int("data", 0, "number of data programs (constant families, natives at their borders, see data.go)")
 	flag.Parse()
 	if *tmp == "" {
 		fmt.Fprintln(os.Stderr, "need -tmp")
@@ -348,6 +375,8 @@ func main() {
 	}
 	r := rand.New(rand.NewSource(*seed))
 	g := &gen{r: r, feat: feat, counts: map[string]int{}}
+	dg := &dgen{r: r}
+	g.data = dg
 	out := bufio.NewWriterSize(os.Stdout, 1<<20)
 	defer out.Flush()
 	enc := json.NewEncoder(out)
@@ -374,17 +403,23 @@ func main() {
 			corpus = append(corpus, string(b))
 		}
 	}
-	total := *n + len(corpus)
+	total := *n + len(corpus) + *ndata
 	for len(progs) < total {
 		g.counts = map[string]int{}
 		var funcs []*gfunc
 		var body strings.Builder
 		fromCorpus := len(progs) < len(corpus)
+		isData := len(progs) >= len(corpus)+*n
 		if fromCorpus {
 			body.WriteString(corpus[len(progs)])
 			g.counts["corpus"] = 1
 		} else {
-			funcs = g.program()
+			if isData {
+				dg.counts = g.counts
+				funcs = dg.program()
+			} else {
+				funcs = g.program()
+			}
 			for _, f := range funcs {
 				body.WriteString(f.src)
 				body.WriteString("\n")
@@ -460,8 +495,11 @@ func main() {
 				if len(f.params) == 0 {
 					nt = 1 // no parameters: one call is enough
 				}
+				if f.tuples != nil {
+					nt = len(f.tuples)
+				}
 				for t := 0; t < nt; t++ {
-					at := mkArgs(r, f.params)
+					at := argsFor(r, f, t)
 					tr.entries = nil
 					vl0 := []int{0, 3, 1, 2, 7}[(len(po.Calls)+t)%5]
 					if timeouts >= maxTimeouts {
@@ -495,7 +533,7 @@ func main() {
 					}
 				}
 			}
-			batch.WriteString(qfRe.ReplaceAllString(body.String(), fmt.Sprintf("P%d_qf$1", pi)))
+			batch.WriteString(renameSyms(body.String(), fmt.Sprintf("P%d_", pi)))
 			fmt.Fprintf(&batch, "func mainP%d() {\n%s}\n\n", pi, mainBody.String())
 			mains = append(mains, fmt.Sprintf("\tmainP%d()\n", pi))
 		}
